@@ -453,7 +453,18 @@ def eval_rule(repo, qual):
     last_fwd = max(c.lineno for c in fwd)
     trains = [n for n in walk_no_nested(f.node) if isinstance(n, ast.Call) and isinstance(n.func, ast.Attribute)
               and n.func.attr == "train" and is_model_expr(n.func.value, {"model"})]
-    early = [n for n in trains if n.lineno <= last_fwd]
+    def loops_of(n):
+        out_, x = [], n
+        while x in pm:
+            x = pm[x]
+            if isinstance(x, (ast.For, ast.While)):
+                out_.append(id(x))
+        return set(out_)
+    fwd_loops = set()
+    for c in fwd:
+        fwd_loops |= loops_of(c)
+    # before the last forward call in program order: lexically earlier, or inside a loop that also contains a forward call (next iteration)
+    early = [n for n in trains if n.lineno <= last_fwd or (loops_of(n) & fwd_loops)]
     evals = [n for n in walk_no_nested(f.node) if isinstance(n, ast.Call) and is_eval(n)]
     if bad and evals:
         out.append(named("R-EVAL", f, role, "forward call `%s` is reached on a path on which `%s` has not run (the eval() is conditional): "
